@@ -458,7 +458,7 @@ META = dict(
     stubs=stubs_description(np_modules=["maze_dataset.maze.lattice_maze", "maze_dataset.dataset.maze_dataset"], stub_ascii=False) + [
         "SERIALIZE_MINIMAL_THRESHOLD -> symbolic integer / None (dispatch harness)"],
     outside=["every path through a file: ZANJ, zip, np.save / json text are C and I/O code that realises symbolic values at once - not decided by this technique",
-             "narrow integer storage (int8) is modelled as unbounded in the symbolic harnesses: the symbolic claim is for grid_n <= 127; overflow is only exercised by the concrete runs",
+             "narrow integer storage (int8) is modelled with numpy's wrap-around by the shim, but the symbolic harnesses run on grids 2 and 3 only; the int8 boundary (127/128) itself is exercised by the concrete runs",
              "datasets without any generation metadata in the minimal formats (the code asserts)"],
     assumptions=["zanj.load_item_recursive passes array objects through unchanged", "per-maze generation metadata of the shape the generators produce"],
 )
